@@ -37,8 +37,11 @@ theorem hitOf_isSome (w1 w2 w3 w4 : V2 K) (l : T2 (V2 K) (V2 K)) (h : NoSnap w1 
   unfold hitOf
   simp only [polish_of_root _ r hr, snap_id w1 w4 l h]
   by_cases hc : 0 ≤ r ∧ r ≤ 1
-  · simp [hc]
-  · simp [hc]
+  · have hw : (-0.1 : K) < r ∧ r < 1.1 := ⟨lt_of_lt_of_le (by norm_num) hc.1, lt_of_le_of_lt hc.2 (by norm_num)⟩
+    simp [hc, hw]
+  · by_cases hw : (-0.1 : K) < r ∧ r < 1.1
+    · simp [hc, hw]
+    · simp [hc, hw]
 
 theorem length_filterMap_eq_countP {α β : Type} (f : α → Option β) : ∀ l : List α,
     (l.filterMap f).length = l.countP fun a => (f a).isSome
